@@ -303,7 +303,9 @@ def outsideModel (c0 : Case) : Bool :=
   uriOut ||
   let nonAscii (ps : List (Bytes × Bytes)) := ps.any fun p => !(p.1.all isAscii && p.2.all isAscii)
   let nonAsciiKey (ps : List (Bytes × Bytes)) := ps.any fun p => !p.1.all isAscii
-  let caseTf := c.rules.any fun r => r.links.any fun l => l.tfs.any fun t => t.toLower == "lowercase" || t.toLower == "uppercase"
+  -- transformations modelled on ASCII input only (Go decodes runes: case mapping, unicode.IsSpace, U+FFFD for bytes that are not UTF-8)
+  let caseTf := c.rules.any fun r => r.links.any fun l => l.tfs.any fun t =>
+    ["lowercase", "uppercase", "removewhitespace", "compresswhitespace"].contains t.toLower
   let pats := c.rules.flatMap rulePatterns
   -- regex keys: the expression must be inside the fragment and the keys ASCII (Go matches runes)
   let rxOut := !pats.isEmpty &&
